@@ -368,7 +368,8 @@ Inductive op :=
 | OSvcX (i : sid) (ttl sp now lo hi : Z) (x : lm_env) (d1 : list Z) (o : outcome)
                                          (* the same with storage faults / REST deletes at the single storage operations of its first LoadMin *)
 | OApiDel (i : sid)
-| OSeed (i : sid) (exp sp : Z).           (* raw JSON entry put under the id's key, bypassing the handlers *)
+| OSeed (i : sid) (exp sp : Z)            (* raw JSON entry put under the id's key, bypassing the handlers *)
+| OSeedMany (l : list (sid * (Z * Z))).  (* many such entries at once (hundreds of registrations found in storage) *)
 
 Inductive obs :=
 | BResp (v : Z) | BStarted | BErr | BBlocked | BUnit
@@ -467,6 +468,11 @@ Definition run_op1 (rs : rstate) (o : op) : rstate * obs :=
       | KSvc _ => lift rs (set_sto s (st_save (key_of i) (Entry (text_of i) exp sp) (sto s)), BUnit)
       | _ => (rs, BUnit)
       end
+  | OSeedMany l =>
+      lift rs (set_sto s (fold_left (fun st x => match key_of (fst x) with
+                                                | KSvc _ => st_save (key_of (fst x)) (Entry (text_of (fst x)) (fst (snd x)) (snd (snd x))) st
+                                                | _ => st
+                                                end) l (sto s)), BUnit)
   end.
 
 Definition run_op (rs : rstate) (o : op) : rstate * (obs * view) :=
